@@ -30,7 +30,7 @@ from io import BytesIO
 import fastbencode as bencode
 from bzrformats import multiparent, pack, serializer
 from bzrformats import versionedfile as _mod_versionedfile
-from bzrformats.inventory import _make_delta
+from bzrformats.inventory import Inventory, _make_delta
 
 from .... import errors, lru_cache, osutils, trace, ui
 from .... import repository as _mod_repository
@@ -89,6 +89,20 @@ class _MPDiffInventoryGenerator(_mod_versionedfile._MPDiffGenerator):
             diff = self.diffs.pop(key)
             sha1 = osutils.sha_strings(as_chunks)
             yield revision_id, parent_ids, sha1, diff
+
+
+def _plain_inventory(inv):
+    """Return inv as a plain Inventory.
+
+    The XML inventory serializers only accept plain inventories; a CHK based
+    repository hands out CHKInventory objects.
+    """
+    if isinstance(inv, Inventory):
+        return inv
+    plain = Inventory(root_id=None, revision_id=inv.revision_id)
+    for _path, entry in inv.iter_entries_by_dir():
+        plain.add(entry)
+    return plain
 
 
 class BundleWriter:
@@ -243,6 +257,36 @@ class BundleWriter:
             self._container.add_bytes_record([bytes], len(bytes), [])
 
 
+class _ContainerSource:
+    """File wrapper that reports a container that ends too early.
+
+    The pack reader keeps asking an exhausted file for more bytes; a bundle
+    that was cut short (or whose compressed stream ends early) would otherwise
+    never finish reading.
+    """
+
+    def __init__(self, fileobj):
+        self._file = fileobj
+        self._at_end = False
+
+    def _check(self, data, wanted):
+        if data or not wanted:
+            self._at_end = False
+        elif self._at_end:
+            raise errors.BadBundle("unexpected end of bundle data")
+        else:
+            self._at_end = True
+        return data
+
+    def read(self, count=None):
+        if count is None:
+            return self._file.read()
+        return self._check(self._file.read(count), count)
+
+    def readline(self):
+        return self._check(self._file.readline(), True)
+
+
 class BundleReader:
     """Reader for bundle-format files.
 
@@ -268,7 +312,7 @@ class BundleReader:
             source_file = osutils.IterableFile(self.iter_decode(fileobj))
         else:
             source_file = BytesIO(bz2.decompress(fileobj.read()))
-        self._container_file = source_file
+        self._container_file = _ContainerSource(source_file)
 
     @staticmethod
     def iter_decode(fileobj):
@@ -910,6 +954,7 @@ class RevisionInstaller:
                     ghosts.add(p_id)
             to_lines = self._source_inventory_serializer.write_inventory_to_chunks
             for parent_inv in self._repository.iter_inventories(present_parent_ids):
+                parent_inv = _plain_inventory(parent_inv)
                 p_text = b"".join(to_lines(parent_inv))
                 inventory_cache[parent_inv.revision_id] = parent_inv
                 cached_parent_texts[parent_inv.revision_id] = p_text
